@@ -73,6 +73,7 @@ fn streams() -> Vec<Stream> {
         Stream { name: "strict-cells", count: (CELLS, CELLS), exhaustive: true, run: strict_cells },
         Stream { name: "embedded-cells", count: (CELLS, CELLS), exhaustive: true, run: embedded_cells },
         Stream { name: "byron-mutants", count: (24_000, 480_000), exhaustive: false, run: byron_mutants },
+        Stream { name: "wide-network-id", count: (2_400, 48_000), exhaustive: false, run: wide_network_id },
     ]
 }
 
@@ -1756,6 +1757,42 @@ fn decoded_for(nib: u8, network: u8, r: &mut Rng, ptr: Option<(u64, u64, u64)>) 
         }
         6 | 7 => Decoded { kind: Kind::Enterprise, network, pay, stake: None, ptr: None, byron: None },
         _ => Decoded { kind: Kind::Reward, network, pay, stake: None, ptr: None, byron: None },
+    }
+}
+
+/// the typed constructors take the network id as a u8 although the header has four bits for it: what
+/// does an id above 15 turn into? (the assumption of the other streams, judged here on its own)
+fn wide_network_id(ctx: &mut Ctx, r: &mut Rng, i: u64) {
+    ctx.eval();
+    let net = 16 + r.below(240) as u8;
+    let cred = Credential::from_keyhash(&Ed25519KeyHash::from_bytes(r.bytes(28)).unwrap());
+    let (kind, addr) = match i / 16 % 4 {
+        0 => ("BaseAddress", BaseAddress::new(net, &cred, &cred).to_address()),
+        1 => ("EnterpriseAddress", EnterpriseAddress::new(net, &cred).to_address()),
+        2 => ("RewardAddress", RewardAddress::new(net, &cred).to_address()),
+        _ => ("PointerAddress", PointerAddress::new(net, &cred, &Pointer::new_pointer(&BigNum::from(1u64), &BigNum::from(2u64), &BigNum::from(3u64))).to_address()),
+    };
+    let bytes = match guard(|| addr.to_bytes()) {
+        Ok(b) => b,
+        Err(p) => {
+            ctx.violation(&format!("{}::new(network > 15)/{}", kind, p.sig()), json!({"network": net}));
+            return;
+        }
+    };
+    ctx.nontrivial_bytes("widenet", &bytes);
+    match guard(|| Address::from_bytes(bytes.clone()).map(|a| (a.network_id().ok(), a.to_bytes()))) {
+        Ok(Ok((n2, b2))) => {
+            if n2 != Some(net) || b2 != bytes || addr.network_id().ok() != n2 {
+                ctx.violation(
+                    "typed-constructor/network-id-above-15/api-accepts-u8-network-id",
+                    json!({"constructor": kind, "network_given": net, "address_reports": format!("{:?}", addr.network_id().ok()), "bytes": hx(&bytes), "decoded_reports": format!("{:?}", n2)}),
+                );
+            } else {
+                ctx.bucket("wide-network-id.round-trips");
+            }
+        }
+        Ok(Err(_)) => ctx.violation("typed-constructor/network-id-above-15/own-bytes-rejected", json!({"constructor": kind, "network_given": net, "bytes": hx(&bytes)})),
+        Err(p) => ctx.violation(&format!("Address::from_bytes/{}", p.sig()), json!({"bytes": hx(&bytes)})),
     }
 }
 
